@@ -56,6 +56,102 @@ fn canon_ok(d: &Date) -> bool {
     *d == d.calendar().at_jdn(d.julian_day_number())
 }
 
+/// The date of day `j` in `cal` as every public producer hands it out: construction from its
+/// labels, parsing its text, the month's shape and iterator (driven in several ways), stepping and
+/// iterating from the neighbouring days (with and without jumps inside one iterator), conversion
+/// from other calendars, the foreign crates, timestamps, the boundary accessors.  A property that
+/// speaks about "a date" of the calendar is checked on all of them, not only on `at_jdn(j)`.
+fn producers(cal: &Calendar, j: i32, g: &mut Gen) -> Vec<(&'static str, Date)> {
+    let mut out: Vec<(&'static str, Option<Date>)> = Vec::new();
+    let d = cal.at_jdn(j);
+    out.push(("at_ymd", cal.at_ymd(d.year(), d.month(), d.day()).ok()));
+    out.push(("at_ordinal_date", cal.at_ordinal_date(d.year(), d.ordinal()).ok()));
+    out.push(("parse_date ymd", cal.parse_date(&d.to_string()).ok()));
+    out.push(("parse_date ordinal", cal.parse_date(&format!("{d:#}")).ok()));
+    if let Some(s) = cal.month_shape(d.year(), d.month()) {
+        let k = d.day_ordinal();
+        out.push(("nth_date", s.nth_date(k)));
+        // (the iterator starts at the first day whose day number is representable)
+        let full = s.dates();
+        let len = full.len() as u32;
+        let first_k = full.clone().next().map_or(1, |x| x.day_ordinal());
+        if k >= first_k {
+            out.push(("dates().nth", s.dates().nth((k - first_k) as usize)));
+            out.push(("dates().skip().next", s.dates().skip((k - first_k) as usize).next()));
+        }
+        out.push(("dates().rev().find", s.dates().rev().find(|x| x.day() == d.day())));
+        // one iterator: next, a jump, next
+        if k >= first_k + 2 {
+            let mut it = s.dates();
+            it.next();
+            it.nth((k - first_k - 2) as usize);
+            out.push(("dates(): next, nth, next", it.next()));
+        }
+        let last_k = first_k + len.saturating_sub(1);
+        if len >= 3 && k + 2 <= last_k {
+            let mut it = s.dates();
+            it.next_back();
+            it.nth_back((last_k - k - 2) as usize);
+            out.push(("dates(): next_back, nth_back, next_back", it.next_back()));
+        }
+    }
+    if j > i32::MIN {
+        let p = cal.at_jdn(j - 1);
+        out.push(("pred-day.succ", p.succ()));
+        out.push(("pred-day.later().next", p.later().next()));
+        out.push(("pred-day.and_later().nth(1)", p.and_later().nth(1)));
+        let back = *g.rng.pick(&[3i64, 30, 367, 1462]);
+        if i64::from(j) - back >= I32_MIN {
+            let q = cal.at_jdn((i64::from(j) - back) as i32);
+            let mut it = q.later();
+            it.next();
+            it.nth((back - 3) as usize);
+            out.push(("later(): next, nth, next", it.next()));
+            out.push(("later().skip().next", q.later().skip((back - 1) as usize).next()));
+        }
+    }
+    if j < i32::MAX {
+        let n = cal.at_jdn(j + 1);
+        out.push(("succ-day.pred", n.pred()));
+        out.push(("succ-day.earlier().next", n.earlier().next()));
+        out.push(("succ-day.and_earlier().nth(1)", n.and_earlier().nth(1)));
+        let fwd = *g.rng.pick(&[3i64, 30, 367, 1462]);
+        if i64::from(j) + fwd <= I32_MAX {
+            let q = cal.at_jdn((i64::from(j) + fwd) as i32);
+            let mut it = q.earlier();
+            it.next();
+            it.nth((fwd - 3) as usize);
+            out.push(("earlier(): next, nth, next", it.next()));
+        }
+    }
+    out.push(("succ then pred", d.succ().and_then(|x| x.pred())));
+    out.push(("pred then succ", d.pred().and_then(|x| x.succ())));
+    out.push(("and_later().next", d.and_later().next()));
+    out.push(("and_earlier().next", d.and_earlier().next()));
+    for c2 in [Calendar::JULIAN, Calendar::GREGORIAN, Calendar::REFORM1582] {
+        out.push(("convert_to from a fixed calendar", Some(c2.at_jdn(j).convert_to(*cal))));
+    }
+    let (_, o2) = g.reforming_cal();
+    if let Some(c2) = mk(&o2) {
+        out.push(("convert_to from a reforming calendar", Some(c2.at_jdn(j).convert_to(*cal))));
+        out.push(("there and back", Some(d.convert_to(c2).convert_to(*cal))));
+    }
+    out.push(("chrono round trip", chrono::NaiveDate::try_from(d).ok().map(|x| Date::from(x).convert_to(*cal))));
+    out.push(("time round trip", time::Date::try_from(d).ok().map(|x| Date::from(x).convert_to(*cal))));
+    out.push(("at_unix_time", cal.at_unix_time(julian::jdn2unix(j)).ok().map(|x| x.0)));
+    if let Some(f) = cal.first_gregorian_date() {
+        if f.julian_day_number() == j {
+            out.push(("first_gregorian_date", Some(f)));
+        }
+    }
+    if let Some(l) = cal.last_julian_date() {
+        if l.julian_day_number() == j {
+            out.push(("last_julian_date", Some(l)));
+        }
+    }
+    out.into_iter().filter_map(|(n, x)| x.map(|x| (n, x))).collect()
+}
+
 fn in_i32(x: i64) -> bool {
     (I32_MIN..=I32_MAX).contains(&x)
 }
@@ -230,6 +326,41 @@ fn one_case(prop: &str, g: &mut Gen, cx: &mut Ctx) {
             }
             let d = cal.at_jdn(ji);
             let (y, m, dd, ord, dord) = describe(&oc, j);
+            if (is("C01") || is("C02") || is("C03") || is("C04") || is("C11")) && g.rng.chance(1, 3) {
+                // the same clauses for the date of day j as every other producer hands it out
+                for (name, x) in producers(&cal, ji, g) {
+                    let xj = i64::from(x.julian_day_number());
+                    let (ey, em, ed, eord, edord) = describe(&oc, xj);
+                    if is("C01") && matches!(name, "at_ymd" | "at_ordinal_date") {
+                        // C01 speaks about feeding the labels back; the other producers are C06's
+                        cx.check(x == d, || format!("{ct} day {j} via {name}: {x:?} is not the date at_jdn returns"));
+                    }
+                    if is("C02") || is("C03") {
+                        cx.check(
+                            xj == j && (i64::from(x.year()), x.month().number(), i64::from(x.day())) == (ey, em, ed),
+                            || format!("{ct} day {j} via {name}: reports day {xj}, labelled {x}, expected {ey}-{em}-{ed}"),
+                        );
+                        if let OCal::Reforming(r) = oc {
+                            cx.check(x.is_julian() == (xj < r) && x.is_gregorian() == (xj >= r), || format!("{ct} day {j} via {name}: style flags"));
+                        }
+                    }
+                    if is("C04") {
+                        cx.check(
+                            xj == j && i64::from(x.ordinal()) == eord && i64::from(x.day_ordinal()) == edord
+                                && x.ordinal0() + 1 == x.ordinal() && x.day_ordinal0() + 1 == x.day_ordinal(),
+                            || format!("{ct} day {j} via {name}: ordinal {} day_ordinal {} expected {eord} {edord}", x.ordinal(), x.day_ordinal()),
+                        );
+                    }
+                    if is("C11") {
+                        use std::cmp::Ordering;
+                        cx.check(
+                            (x.cmp(&d) == Ordering::Equal) == (x == d) && (x != d || crate::run::hash_pub(&x) == crate::run::hash_pub(&d))
+                                && x.cmp(&d) == Ordering::Equal,
+                            || format!("{ct} day {j} via {name}: {x:?} against the directly constructed date: cmp {:?}, == {}", x.cmp(&d), x == d),
+                        );
+                    }
+                }
+            }
             if is("C01") || is("C02") || is("C03") {
                 cx.check(i64::from(d.julian_day_number()) == j, || format!("{ct} at_jdn({j}).jdn = {}", d.julian_day_number()));
             }
@@ -310,6 +441,11 @@ fn one_case(prop: &str, g: &mut Gen, cx: &mut Ctx) {
             let p = d.pred();
             if is("C06") {
                 cx.check(s.map_or(true, |x| canon_ok(&x)) && p.map_or(true, |x| canon_ok(&x)), || format!("{ct} succ/pred of {j} not canonical: {s:?} {p:?}"));
+                if g.rng.chance(1, 3) {
+                    for (name, x) in producers(&cal, ji, g) {
+                        cx.check(canon_ok(&x) && x == d, || format!("{ct} day {j} via {name}: {x:?} is not the calendar's canonical date"));
+                    }
+                }
             }
             if is("C10") {
             cx.check(s.is_none() == (j == I32_MAX) && s.map_or(true, |x| x == cal.at_jdn(ji + 1)), || format!("{ct} succ of {j}: {s:?}"));
